@@ -11,7 +11,7 @@
    minted ids are unused and the sequential counter never points at an existing id. *)
 From Coq Require Import Permutation.
 From SC Require Import Lib.Prelude Lib.Int Lib.Host Model.Nft Run.NftCommon Proofs.NftMaps Proofs.NftFrame
-  Proofs.NftInv Proofs.NftCons Proofs.NftOwn Proofs.NftSim Proofs.NftCard Proofs.NftEnum Run.C10 Proofs.C10Card
+  Proofs.NftInv Proofs.NftCons Proofs.NftOwn Proofs.NftSim Proofs.NftScope Proofs.NftCard Proofs.NftEnum Run.C10 Proofs.C10Card
   Proofs.C10Sim Proofs.C10Monitor Proofs.C10Final Model.NftBits Proofs.NftBits Model.NftBitsRun Proofs.NftBitsRun.
 Local Open Scope N_scope.
 
@@ -160,6 +160,40 @@ Theorem C10_owner_can_burn : forall fl c now0 cs auths from id,
 Proof. exact owner_can_burn. Qed.
 Print Assumptions C10_owner_can_burn.
 
+(* ... and so can the owner's approved account or operator while the getters report that approval; every
+   batch size 1 ..= MAX_TOKENS_IN_BATCH is accepted (any state); a successful move names the owner and
+   returns nothing. *)
+Theorem C10_spender_can_transfer : forall fl c now0 cs auths sp from to id,
+  fresh_run fl c (init now0) cs = true ->
+  let s := run fl c (init now0) cs in
+  owner_of fl c s id = Some from -> In sp auths ->
+  (sp = from \/ get_approved s id = Some sp \/ is_approved_for_all s from sp = true) ->
+  balance s to + 1 <= MAXU32N ->
+  exists s', exec fl c s (TransferFrom auths sp from to id) = Ok (s', None).
+Proof. exact spender_can_transfer. Qed.
+Print Assumptions C10_spender_can_transfer.
+Theorem C10_spender_can_burn : forall fl c now0 cs auths sp from id,
+  fresh_run fl c (init now0) cs = true ->
+  let s := run fl c (init now0) cs in
+  owner_of fl c s id = Some from -> In sp auths ->
+  (sp = from \/ get_approved s id = Some sp \/ is_approved_for_all s from sp = true) ->
+  exists s', exec fl c s (BurnFrom auths sp from id) = Ok (s', None).
+Proof. exact spender_can_burn. Qed.
+Print Assumptions C10_spender_can_burn.
+Theorem C10_batch_mint_accepted : forall c s to amt,
+  1 <= amt -> amt <= max_batch c -> next_id s + amt <= MAXU32N -> balance s to + amt <= MAXU32N ->
+  exists s', exec FCons c s (BatchMint to amt) = Ok (s', Some (next_id s + amt - 1)).
+Proof. exact batch_mint_accepted. Qed.
+Print Assumptions C10_batch_mint_accepted.
+Theorem C10_move_names_owner : forall fl c s cl s' r, exec fl c s cl = Ok (s', r) ->
+  match cl with
+  | Transfer _ from _ id | TransferFrom _ _ from _ id | Burn _ from id | BurnFrom _ _ from id =>
+      owner_of fl c s id = Some from /\ r = None
+  | _ => True
+  end.
+Proof. exact move_names_owner. Qed.
+Print Assumptions C10_move_names_owner.
+
 (* ---------- bit level of the consecutive ownership buckets (Model/NftBits.v) ----------
    W = bits per item (u32::BITS), I = items per bucket; a bucket is a vector of I words, bit
    (W-1-p) of word k stands for position k*W + p.  [least_in P lo hi r]: r is the least position in
@@ -215,64 +249,142 @@ Theorem C10_bits_run_refines_set_run : forall b c now0 cs,
 Proof. exact bits_run_refines_set_run. Qed.
 Print Assumptions C10_bits_run_refines_set_run.
 
-(* The executable check accepts every trace of the model whose mints are fresh and whose queries are
-   well-formed ([wf_run]: a boolean over calls and query shapes - in `full` mode the queried ids are
-   duplicate-free and cover the existing tokens; the enumerations are queried two indices beyond their
-   end): empty diff against the set-level model, empty diff against the bit-level replay (outcomes,
-   owner_of, raw bucket words), monitor true. *)
+(* The executable check accepts every trace of the model whose QUERIES are well formed ([wf_run]: exactly the
+   observation-shape test the monitor itself applies, evaluated on the query shapes - ids strictly increasing,
+   containing the ids the call names and, in `full` mode, every id 0 .. next_id+2 and every individually
+   assigned id; every holder's balance asked; enumerations asked two indices beyond their end; for consecutive
+   traces the bucket dumps ask for buckets 0 .. next_id/IDS_IN_BUCKET+1): empty diff against the set-level model,
+   empty diff against the bit-level replay (outcomes, owner_of, raw bucket words), monitor true.  No freshness
+   hypothesis: when the model's run leaves the quantifier (a mint onto a live id) the monitor stops judging. *)
 Theorem C10_monitor_accepts_model : forall fl c b now0 full (l : list (call * obs)) (shapes : list bdump),
-  wf_run fl c full (init now0) l = true ->
-  (fl = FCons -> bcfg_okb b c = true) ->
+  wf_run fl c full (init now0) (ghost0 now0) l = true ->
+  (fl = FCons -> bcfg_okb b c = true /\ dshapes_ok b c (init_b now0) l shapes = true) ->
   check (model_btrace fl c b now0 full l shapes) = (0, 0, 0).
 Proof. exact c10_check_accepts_model. Qed.
 Print Assumptions C10_monitor_accepts_model.
 
-(* ---------- non-vacuity ---------- *)
+(* ---------- non-vacuity and rejection Examples ---------- *)
+Definition c0 := Build_cfg (Build_hostcfg 1 6312000) 3200 32000.
+Definition b0 := Build_bcfg 32 100.
+(* observation of ids 0,1,2,... with the given owner answers *)
+Definition idx {A} (l : list A) : list (N * A) := combine (nseq 0 (length l)) l.
+Definition ob (nx : N) (own : list (option addr)) (bal : list N) : obs := mkObs nx (idx own) (idx bal) [] [] 0 [] [].
+Definition obe (nx : N) (own : list (option addr)) (bal : list N) (tot : N) (glob : list (option N)) (otok : list (list (option N))) : obs :=
+  mkObs nx (idx own) (idx bal) [] [] tot glob (idx otok).
 Definition q (ids : list N) (addrs : list addr) (glob : N) (otok : list N) : obs :=
   mkObs 0 (map (fun i => (i, None)) ids) (map (fun a => (a, 0)) addrs) (map (fun i => (i, None)) ids) [] 0
     (repeat None (N.to_nat glob)) (combine addrs (map (fun k => repeat None (N.to_nat k)) otok)).
+Definition mon fl full steps := monitor (mkTrace fl c0 10 full steps).
 
-(* the hypothesis of C10_monitor_accepts_model holds on real query shapes, for the three flavours *)
+(* the hypotheses of C10_monitor_accepts_model hold on real query shapes, for the three flavours *)
 Example C10_wf_satisfiable :
-  let c := Build_cfg (Build_hostcfg 1 1000) 3200 32000 in
-  wf_run FCons c true (init 10)
+  wf_run FCons c0 true (init 10) (ghost0 10)
     [(BatchMint 0 5, q [0;1;2;3;4;5;6;7] [0;1] 0 []); (Transfer [0] 0 1 2, q [0;1;2;3;4;5;6;7] [0;1] 0 []);
      (Burn [0] 0 1, q [0;1;2;3;4;5;6;7] [0;1] 0 []); (BatchMint 1 3, q [0;1;2;3;4;5;6;7;8;9;10] [0;1] 0 [])] = true /\
-  wf_run FEnum c true (init 10)
+  dshapes_ok b0 c0 (init_b 10) [(BatchMint 0 5, q [] [] 0 []); (Transfer [0] 0 1 2, q [] [] 0 [])]
+    [[(0, None); (1, None)]; [(0, None); (1, None)]] = true /\
+  wf_run FEnum c0 true (init 10) (ghost0 10)
     [(MintSeq 0, q [0;1;2;3] [0;1] 3 [3;2]); (MintSeq 0, q [0;1;2;3;4] [0;1] 4 [4;2]);
      (Transfer [0] 0 1 0, q [0;1;2;3;4] [0;1] 4 [3;3]); (Burn [0] 0 1, q [0;1;2;3;4] [0;1] 3 [2;3])] = true /\
-  wf_run FBase c true (init 10)
+  wf_run FBase c0 true (init 10) (ghost0 10)
     [(MintId 0 1000, q [0;1;2;1000] [0;1] 0 []); (MintSeq 1, q [0;1;2;3;1000] [0;1] 0 [])] = true.
 Proof. vm_compute. repeat split. Qed.
 
-(* the monitor rejects: a wrong owner for an untouched id after a transfer; a balance that does not
-   count the owned tokens; a reused sequential id; a token missing from the global enumeration;
-   a token listed twice in an owner's enumeration *)
+(* THE BOUNDARY OF THE QUANTIFIER (documented caveat of the library: uniqueness of explicit ids is the
+   integrator's responsibility).  mint(A, 1) - id 1 is fresh then - followed by two sequential mints: the
+   second re-issues the live id 1.  The model reproduces what the real code does: A keeps balance 1 owning
+   nothing, B owns 0 and 1; [fresh_run] is false on this history (so the refinement theorems do not speak
+   about it); the strict monitor flags the third call, the scoped monitor stops judging there. *)
+Example C10_mixing_mint_strategies_reissues_id :
+  let cs := [MintId 0 1; MintSeq 1; MintSeq 1] in
+  let s := run FBase c0 (init 10) cs in
+  map (owner_of FBase c0 s) [0; 1; 2] = [Some 1; Some 1; None] /\
+  (balance s 0, balance s 1) = (1, 2) /\
+  fresh_run FBase c0 (init 10) cs = false /\
+  fresh_run FBase c0 (init 10) [MintId 0 1; MintSeq 1] = true /\
+  let t := model_trace FBase c0 10 true
+             [(MintId 0 1, q [0;1;2] [0;1] 0 []); (MintSeq 1, q [0;1;2;3] [0;1] 0 []); (MintSeq 1, q [0;1;2;3;4] [0;1] 0 [])] in
+  monitor_strict t = 3 /\ monitor t = 0 /\ diff t = 0 /\
+  (* the enumerable flavour lists id 1 twice and counts 3 tokens *)
+  let se := run FEnum c0 (init 10) cs in
+  (total se, map (get_token_id se) [0; 1; 2], get_owner_token_id se 0 0) = (3, [Some 1; Some 0; Some 1], Some 1).
+Proof. vm_compute. repeat split. Qed.
+
+(* readings the monitor takes: an id that was explicitly minted and burned is fresh again - for a later
+   explicit mint and for the sequential counter (accepted, in scope) *)
+Example C10_burned_ids_are_fresh_again :
+  mon FBase true
+    [(MintId 0 1, Ok None, ob 0 [None; Some 0; None] [1; 0]);
+     (Burn [0] 0 1, Ok None, ob 0 [None; None; None] [0; 0]);
+     (MintSeq 1, Ok (Some 0), ob 1 [Some 1; None; None; None] [0; 1]);
+     (MintSeq 1, Ok (Some 1), ob 2 [Some 1; Some 1; None; None; None] [0; 2])] = 0 /\
+  mon FBase true
+    [(MintSeq 0, Ok (Some 0), ob 1 [Some 0; None; None; None] [1; 0]);
+     (Burn [0] 0 0, Ok None, ob 1 [None; None; None; None] [0; 0]);
+     (MintId 1 0, Ok None, ob 1 [Some 1; None; None; None] [0; 1])] = 0.
+Proof. vm_compute. repeat split. Qed.
+
+(* the monitor rejects: a wrong owner for an untouched id after a transfer; a balance that does not count the
+   owned tokens; a sequential id reused after a burn; a token missing from the global enumeration; a token
+   listed twice in an owner's enumeration *)
 Example C10_monitor_rejects_bad_traces :
-  let c := Build_cfg (Build_hostcfg 1 1000) 3200 32000 in
-  let ob nx own bal := mkObs nx own bal [] [] 0 [] [] in
-  monitor (mkTrace FCons c 10 true
-    [(BatchMint 0 3, Ok (Some 2), ob 3 [(0, Some 0); (1, Some 0); (2, Some 0); (3, None)] [(0, 3); (1, 0)]);
-     (Transfer [0] 0 1 1, Ok None, ob 3 [(0, Some 1); (1, Some 1); (2, Some 0); (3, None)] [(0, 2); (1, 1)])]) = 2 /\
-  monitor (mkTrace FCons c 10 true
-    [(BatchMint 0 3, Ok (Some 2), ob 3 [(0, Some 0); (1, Some 0); (2, Some 0); (3, None)] [(0, 3); (1, 0)]);
-     (Transfer [0] 0 1 1, Ok None, ob 3 [(0, Some 0); (1, Some 1); (2, Some 0); (3, None)] [(0, 2); (1, 1)])]) = 0 /\
-  monitor (mkTrace FBase c 10 true
-    [(MintSeq 0, Ok (Some 0), ob 1 [(0, Some 0); (1, None)] [(0, 1); (1, 0)]);
-     (Burn [0] 0 0, Ok None, ob 1 [(0, None); (1, None)] [(0, 1); (1, 0)])]) = 2 /\
-  monitor (mkTrace FBase c 10 true
-    [(MintSeq 0, Ok (Some 0), ob 1 [(0, Some 0); (1, None)] [(0, 1); (1, 0)]);
-     (Burn [0] 0 0, Ok None, ob 1 [(0, None); (1, None)] [(0, 0); (1, 0)]);
-     (MintSeq 1, Ok (Some 0), ob 1 [(0, Some 1); (1, None)] [(0, 0); (1, 1)])]) = 3 /\
-  monitor (mkTrace FEnum c 10 true
-    [(MintSeq 0, Ok (Some 0), mkObs 1 [(0, Some 0); (1, None)] [(0, 1)] [] [] 1 [Some 0; None; None] [(0, [Some 0; None; None])]);
-     (MintSeq 0, Ok (Some 1), mkObs 2 [(0, Some 0); (1, Some 0)] [(0, 2)] [] [] 2 [Some 0; None; None; None] [(0, [Some 0; Some 1; None; None])])]) = 2 /\
-  monitor (mkTrace FEnum c 10 true
-    [(MintSeq 0, Ok (Some 0), mkObs 1 [(0, Some 0); (1, None)] [(0, 1)] [] [] 1 [Some 0; None; None] [(0, [Some 0; None; None])]);
-     (MintSeq 0, Ok (Some 1), mkObs 2 [(0, Some 0); (1, Some 0)] [(0, 2)] [] [] 2 [Some 0; Some 1; None; None] [(0, [Some 0; Some 0; None; None])])]) = 2 /\
-  monitor (mkTrace FEnum c 10 true
-    [(MintSeq 0, Ok (Some 0), mkObs 1 [(0, Some 0); (1, None)] [(0, 1)] [] [] 1 [Some 0; None; None] [(0, [Some 0; None; None])]);
-     (MintSeq 0, Ok (Some 1), mkObs 2 [(0, Some 0); (1, Some 0)] [(0, 2)] [] [] 2 [Some 0; Some 1; None; None] [(0, [Some 0; Some 1; None; None])])]) = 0.
+  mon FCons true
+    [(BatchMint 0 3, Ok (Some 2), ob 3 [Some 0; Some 0; Some 0; None; None; None] [3; 0]);
+     (Transfer [0] 0 1 1, Ok None, ob 3 [Some 1; Some 1; Some 0; None; None; None] [2; 1])] = 2 /\
+  mon FCons true
+    [(BatchMint 0 3, Ok (Some 2), ob 3 [Some 0; Some 0; Some 0; None; None; None] [3; 0]);
+     (Transfer [0] 0 1 1, Ok None, ob 3 [Some 0; Some 1; Some 0; None; None; None] [2; 1])] = 0 /\
+  mon FBase true
+    [(MintSeq 0, Ok (Some 0), ob 1 [Some 0; None; None; None] [1; 0]);
+     (Burn [0] 0 0, Ok None, ob 1 [None; None; None; None] [1; 0])] = 2 /\
+  mon FBase true
+    [(MintSeq 0, Ok (Some 0), ob 1 [Some 0; None; None; None] [1; 0]);
+     (Burn [0] 0 0, Ok None, ob 1 [None; None; None; None] [0; 0]);
+     (MintSeq 1, Ok (Some 0), ob 1 [Some 1; None; None; None] [0; 1])] = 3 /\
+  mon FEnum true
+    [(MintSeq 0, Ok (Some 0), obe 1 [Some 0; None; None; None] [1] 1 [Some 0; None; None] [[Some 0; None; None]]);
+     (MintSeq 0, Ok (Some 1), obe 2 [Some 0; Some 0; None; None; None] [2] 2 [Some 0; None; None; None] [[Some 0; Some 1; None; None]])] = 2 /\
+  mon FEnum true
+    [(MintSeq 0, Ok (Some 0), obe 1 [Some 0; None; None; None] [1] 1 [Some 0; None; None] [[Some 0; None; None]]);
+     (MintSeq 0, Ok (Some 1), obe 2 [Some 0; Some 0; None; None; None] [2] 2 [Some 0; Some 1; None; None] [[Some 0; Some 0; None; None]])] = 2 /\
+  mon FEnum true
+    [(MintSeq 0, Ok (Some 0), obe 1 [Some 0; None; None; None] [1] 1 [Some 0; None; None] [[Some 0; None; None]]);
+     (MintSeq 0, Ok (Some 1), obe 2 [Some 0; Some 0; None; None; None] [2] 2 [Some 0; Some 1; None; None] [[Some 0; Some 1; None; None]])] = 0.
+Proof. vm_compute. repeat split. Qed.
+
+(* the monitor stands on its own: malformed or hiding traces are rejected (review traces A1, A1b, A2, A7, A9,
+   A10, an Advance reported as failed, a batch on a non-consecutive flavour, an explicit mint on the
+   consecutive flavour, a batch whose range swallows a live explicitly minted id is Illegal there) *)
+Example C10_monitor_rejects_malformed_traces :
+  (* A1: batch swallows live id 5 (sampled and full) - an explicit mint is not an entry point of the consecutive flavour *)
+  mon FCons false
+    [(MintId 1 5, Ok None, mkObs 0 [(0,None);(5,Some 1);(9,None)] [(0,0);(1,1)] [] [] 0 [] []);
+     (BatchMint 0 10, Ok (Some 9), mkObs 10 [(0,Some 0);(5,Some 0);(9,Some 0);(10,None)] [(0,10);(1,1)] [] [] 0 [] [])] = 1 /\
+  (* ... and with a reference that knows a live point id inside the range the batch is out of scope / strict: flagged *)
+  mon_from true FCons c0 false (mkGhost 10 [LPoint 5 (Some 1)] [(1, 1)] 0 1 [] []) 
+    [(BatchMint 0 10, Ok (Some 9), mkObs 10 [(0,Some 0);(5,Some 0);(9,Some 0);(10,None)] [(0,10);(1,1)] [] [] 0 [] [])] 0 = 1 /\
+  (* A2: the transfer of token 1 also moved token 2; id 2 and the loser are simply not listed afterwards *)
+  mon FCons true
+    [(BatchMint 0 3, Ok (Some 2), ob 3 [Some 0; Some 0; Some 0; None; None; None] [3; 0]);
+     (Transfer [0] 0 1 1, Ok None, mkObs 3 [(0,Some 0);(1,Some 1);(3,None)] [(1,1)] [] [] 0 [] [])] = 2 /\
+  (* A9: nothing observed at all *)
+  mon FCons true [(BatchMint 0 3, Ok (Some 2), mkObs 3 [] [] [] [] 0 [] [])] = 1 /\
+  (* a holder's balance not listed *)
+  mon FCons true [(BatchMint 0 3, Ok (Some 2), mkObs 3 (idx [Some 0; Some 0; Some 0; None; None; None]) [(1,0)] [] [] 0 [] [])] = 1 /\
+  (* A7: enumeration answers on a trace labelled Base *)
+  mon FBase true
+    [(MintSeq 0, Ok (Some 0), obe 1 [Some 0; None; None; None] [1] 1 [Some 7; None; None] [[Some 7; None; None]])] = 1 /\
+  (* A10: a transfer that returns a value *)
+  mon FCons true
+    [(BatchMint 0 3, Ok (Some 2), ob 3 [Some 0; Some 0; Some 0; None; None; None] [3; 0]);
+     (Transfer [0] 0 1 1, Ok (Some 99), ob 3 [Some 0; Some 1; Some 0; None; None; None] [2; 1])] = 2 /\
+  (* the ledger refusing to move *)
+  mon FBase true [(Advance 5, Fail, ob 0 [None; None; None] [])] = 1 /\
+  (* mint entry points the flavour does not have *)
+  mon FBase true [(BatchMint 0 3, Ok (Some 2), ob 3 [Some 0; Some 0; Some 0; None; None; None] [3])] = 1 /\
+  mon FCons true [(MintSeq 0, Ok (Some 0), ob 1 [Some 0; None; None; None] [1])] = 1 /\
+  (* ids not in increasing order (duplicates could hide a second answer) *)
+  mon FBase true [(MintSeq 0, Ok (Some 0), mkObs 1 [(0, Some 0); (0, None); (1, None); (2, None); (3, None)] [(0,1)] [] [] 0 [] [])] = 1.
 Proof. vm_compute. repeat split. Qed.
 
 (* a reachable consecutive state with burned neighbours, a bucket boundary and every id queried *)
@@ -287,75 +399,69 @@ Proof. vm_compute. repeat split. Qed.
 
 (* bit level on the real constants: marks on word and bucket edges *)
 Example C10_bits_example :
-  let b := Build_bcfg 32 100 in
-  let c := Build_cfg (Build_hostcfg 1 1000) 3200 32000 in
   let s := set_marks (init 0) [6405; 3199; 3200; 5; 31; 32; 64; 3000] in
-  match buckets_of b (marks s) with
-  | Ok bs => map (fun i => scan_bits b bs i 9599) [0; 6; 31; 32; 33; 65; 3001; 3199; 3200; 3201; 6405; 6406]
+  match buckets_of b0 (marks s) with
+  | Ok bs => map (fun i => scan_bits b0 bs i 9599) [0; 6; 31; 32; 33; 65; 3001; 3199; 3200; 3201; 6405; 6406]
              = [Some 5; Some 31; Some 31; Some 32; Some 64; Some 3000; Some 3199; Some 3199; Some 3200; Some 6405; Some 6405; None]
-             /\ map (fun i => scan_bits b bs i 3300) [3200; 3201] = [Some 3200; None]
+             /\ map (fun i => scan_bits b0 bs i 3300) [3200; 3201] = [Some 3200; None]
   | Fail => False
   end.
 Proof. vm_compute. repeat split. Qed.
 
-(* persistence: nothing but a call may change the state.  After a long ledger gap (one Advance) an owner
-   that disappeared, a balance that went to 0, a burnt token that came back, an enumeration entry that
-   vanished, or a getter that trapped (reported by the harness as the impossible value 2^32) are rejected *)
+(* persistence: nothing but a call may change the state.  After a long ledger gap (one Advance) an owner that
+   disappeared, a balance that went to 0, a burnt token that came back, an enumeration entry that vanished, or
+   a getter that trapped (reported by the harness as the impossible value 2^32) are rejected *)
 Example C10_monitor_rejects_lapsed_state :
-  let c := Build_cfg (Build_hostcfg 1 6312000) 3200 32000 in
-  let ob nx own bal := mkObs nx own bal [] [] 0 [] [] in
-  monitor (mkTrace FBase c 10 true
-    [(MintSeq 0, Ok (Some 0), ob 1 [(0, Some 0); (1, None)] [(0, 1)]);
-     (Advance 600000, Ok None, ob 1 [(0, None); (1, None)] [(0, 1)])]) = 2 /\
-  monitor (mkTrace FBase c 10 true
-    [(MintSeq 0, Ok (Some 0), ob 1 [(0, Some 0); (1, None)] [(0, 1)]);
-     (Advance 4000000, Ok None, ob 1 [(0, Some 0); (1, None)] [(0, 0)])]) = 2 /\
-  monitor (mkTrace FBase c 10 true
-    [(MintSeq 0, Ok (Some 0), ob 1 [(0, Some 0); (1, None)] [(0, 1)]);
-     (Advance 20000, Ok None, ob 1 [(0, Some 0); (1, None)] [(0, 4294967296)])]) = 2 /\
-  monitor (mkTrace FBase c 10 true
-    [(MintSeq 0, Ok (Some 0), ob 1 [(0, Some 0); (1, None)] [(0, 1)]);
-     (Advance 17281, Ok None, ob 4294967296 [(0, Some 0); (1, None)] [(0, 1)])]) = 2 /\
-  monitor (mkTrace FCons c 10 true
-    [(BatchMint 0 3, Ok (Some 2), ob 3 [(0, Some 0); (1, Some 0); (2, Some 0); (3, None)] [(0, 3)]);
-     (Burn [0] 0 1, Ok None, ob 3 [(0, Some 0); (1, None); (2, Some 0); (3, None)] [(0, 2)]);
-     (Advance 600000, Ok None, ob 3 [(0, Some 0); (1, Some 0); (2, Some 0); (3, None)] [(0, 2)])]) = 3 /\
-  monitor (mkTrace FEnum c 10 true
-    [(MintSeq 0, Ok (Some 0), mkObs 1 [(0, Some 0); (1, None)] [(0, 1)] [] [] 1 [Some 0; None; None] [(0, [Some 0; None; None])]);
-     (Advance 100, Ok None, mkObs 1 [(0, Some 0); (1, None)] [(0, 1)] [] [] 1 [None; None; None] [(0, [Some 0; None; None])])]) = 2 /\
-  monitor (mkTrace FEnum c 10 true
-    [(MintSeq 0, Ok (Some 0), mkObs 1 [(0, Some 0); (1, None)] [(0, 1)] [] [] 1 [Some 0; None; None] [(0, [Some 0; None; None])]);
-     (Advance 4000000, Ok None, mkObs 1 [(0, Some 0); (1, None)] [(0, 1)] [] [] 1 [Some 0; None; None] [(0, [Some 0; None; None])])]) = 0.
+  mon FBase true
+    [(MintSeq 0, Ok (Some 0), ob 1 [Some 0; None; None; None] [1]);
+     (Advance 600000, Ok None, ob 1 [None; None; None; None] [1])] = 2 /\
+  mon FBase true
+    [(MintSeq 0, Ok (Some 0), ob 1 [Some 0; None; None; None] [1]);
+     (Advance 4000000, Ok None, ob 1 [Some 0; None; None; None] [0])] = 2 /\
+  mon FBase true
+    [(MintSeq 0, Ok (Some 0), ob 1 [Some 0; None; None; None] [1]);
+     (Advance 20000, Ok None, ob 1 [Some 0; None; None; None] [4294967296])] = 2 /\
+  mon FBase true
+    [(MintSeq 0, Ok (Some 0), ob 1 [Some 0; None; None; None] [1]);
+     (Advance 17281, Ok None, ob 4294967296 [Some 0; None; None; None] [1])] = 2 /\
+  mon FCons true
+    [(BatchMint 0 3, Ok (Some 2), ob 3 [Some 0; Some 0; Some 0; None; None; None] [3]);
+     (Burn [0] 0 1, Ok None, ob 3 [Some 0; None; Some 0; None; None; None] [2]);
+     (Advance 600000, Ok None, ob 3 [Some 0; Some 0; Some 0; None; None; None] [2])] = 3 /\
+  mon FEnum true
+    [(MintSeq 0, Ok (Some 0), obe 1 [Some 0; None; None; None] [1] 1 [Some 0; None; None] [[Some 0; None; None]]);
+     (Advance 100, Ok None, obe 1 [Some 0; None; None; None] [1] 1 [None; None; None] [[Some 0; None; None]])] = 2 /\
+  mon FEnum true
+    [(MintSeq 0, Ok (Some 0), obe 1 [Some 0; None; None; None] [1] 1 [Some 0; None; None] [[Some 0; None; None]]);
+     (Advance 4000000, Ok None, obe 1 [Some 0; None; None; None] [1] 1 [Some 0; None; None] [[Some 0; None; None]])] = 0.
 Proof. vm_compute. repeat split. Qed.
 
 (* the monitor rejects a token that got stuck: the owner's authorised transfer / burn fails *)
 Example C10_monitor_rejects_stuck_token :
-  let c := Build_cfg (Build_hostcfg 1 6312000) 3200 32000 in
-  let ob nx own bal := mkObs nx own bal [] [] 0 [] [] in
-  monitor (mkTrace FBase c 10 true
-    [(MintSeq 0, Ok (Some 0), ob 1 [(0, Some 0); (1, None)] [(0, 1); (1, 0)]);
-     (Advance 600000, Ok None, ob 1 [(0, Some 0); (1, None)] [(0, 1); (1, 0)]);
-     (Transfer [0] 0 1 0, Fail, ob 1 [(0, Some 0); (1, None)] [(0, 1); (1, 0)])]) = 3 /\
-  monitor (mkTrace FBase c 10 true
-    [(MintSeq 0, Ok (Some 0), ob 1 [(0, Some 0); (1, None)] [(0, 1); (1, 0)]);
-     (Burn [0] 0 0, Fail, ob 1 [(0, Some 0); (1, None)] [(0, 1); (1, 0)])]) = 2 /\
+  mon FBase true
+    [(MintSeq 0, Ok (Some 0), ob 1 [Some 0; None; None; None] [1; 0]);
+     (Advance 600000, Ok None, ob 1 [Some 0; None; None; None] [1; 0]);
+     (Transfer [0] 0 1 0, Fail, ob 1 [Some 0; None; None; None] [1; 0])] = 3 /\
+  mon FBase true
+    [(MintSeq 0, Ok (Some 0), ob 1 [Some 0; None; None; None] [1; 0]);
+     (Burn [0] 0 0, Fail, ob 1 [Some 0; None; None; None] [1; 0])] = 2 /\
   (* ... but not a transfer that must fail: wrong owner named, or the owner's authorisation missing *)
-  monitor (mkTrace FBase c 10 true
-    [(MintSeq 0, Ok (Some 0), ob 1 [(0, Some 0); (1, None)] [(0, 1); (1, 0)]);
-     (Transfer [1] 1 0 0, Fail, ob 1 [(0, Some 0); (1, None)] [(0, 1); (1, 0)]);
-     (Transfer [1] 0 1 0, Fail, ob 1 [(0, Some 0); (1, None)] [(0, 1); (1, 0)])]) = 0.
+  mon FBase true
+    [(MintSeq 0, Ok (Some 0), ob 1 [Some 0; None; None; None] [1; 0]);
+     (Transfer [1] 1 0 0, Fail, ob 1 [Some 0; None; None; None] [1; 0]);
+     (Transfer [1] 0 1 0, Fail, ob 1 [Some 0; None; None; None] [1; 0])] = 0.
 Proof. vm_compute. repeat split. Qed.
 
-(* the bit-level diff is not vacuous: a wrong raw word (LSB-first mask), a missing bucket, and an owner_of
-   answer that the bit-level scan does not give are flagged although outcomes agree *)
+(* the bit-level diff is not vacuous: a wrong raw word (LSB-first mask), a missing bucket, a wrong number of
+   words, a wrong constant, and MISSING dumps (review trace A8) are flagged although outcomes agree *)
 Example C10_bit_level_diff_rejects :
-  let c := Build_cfg (Build_hostcfg 1 1000) 3200 32000 in
-  let b := Build_bcfg 32 100 in
-  let ob := mkObs 3 [(0, Some 0); (1, Some 0); (2, Some 0); (3, None)] [(0, 3)] [] [] 0 [] [] in
-  let t := mkTrace FCons c 10 true [(BatchMint 0 3, Ok (Some 2), ob)] in
-  check (mkBTrace t b [[(0, Some (100, [(0, 536870912)])); (1, None)]]) = (0, 0, 0) /\
-  fst (fst (check (mkBTrace t b [[(0, Some (100, [(0, 4)])); (1, None)]]))) = 1 /\
-  fst (fst (check (mkBTrace t b [[(0, None); (1, None)]]))) = 1 /\
-  fst (fst (check (mkBTrace t b [[(0, Some (99, [(0, 536870912)])); (1, None)]]))) = 1 /\
-  fst (fst (check (mkBTrace t (Build_bcfg 32 99) [[(0, Some (100, [(0, 536870912)])); (1, None)]]))) = 1.
+  let t := mkTrace FCons c0 10 true [(BatchMint 0 3, Ok (Some 2), ob 3 [Some 0; Some 0; Some 0; None; None; None] [3])] in
+  check (mkBTrace t b0 [[(0, Some (100, [(0, 536870912)])); (1, None)]]) = (0, 0, 0) /\
+  fst (fst (check (mkBTrace t b0 [[(0, Some (100, [(0, 4)])); (1, None)]]))) = 1 /\
+  fst (fst (check (mkBTrace t b0 [[(0, None); (1, None)]]))) = 1 /\
+  fst (fst (check (mkBTrace t b0 [[(0, Some (99, [(0, 536870912)])); (1, None)]]))) = 1 /\
+  fst (fst (check (mkBTrace t (Build_bcfg 32 99) [[(0, Some (100, [(0, 536870912)])); (1, None)]]))) = 1 /\
+  fst (fst (check (mkBTrace t b0 []))) = 1 /\
+  fst (fst (check (mkBTrace t b0 [[]]))) = 1 /\
+  fst (fst (check (mkBTrace t b0 [[(0, Some (100, [(0, 536870912)]))]]))) = 1.
 Proof. vm_compute. repeat split. Qed.
